@@ -42,7 +42,9 @@ def u64Field (c : Cbor) : Dec Nat :=
   | .uint n => .ok n
   | .simple 22 => .ok 0
   | .simple 23 => .ok 0
-  | .simple _ => .unmodelled     -- fxamacker converts other simple values to integers
+  | .simple 20 => .err
+  | .simple 21 => .err
+  | .simple n => .ok n           -- fxamacker fills integer targets from the other simple values (f0 ↦ 16, f880 ↦ 128)
   | .float _ _ => .unmodelled
   | _ => .err
 
